@@ -207,3 +207,58 @@ Proof.
       destruct (overwrite_ok pos h a left LH R1) as [b2 OB].
       rewrite OB. f_equal. symmetry. exact (overwrite_absorb pos left ND a h0 a1 h row b2 O1 OR OB).
 Qed.
+
+(* ---- finding C03-counts-duplicate-user-alleles ------------------------------------------- *)
+(* With the user allele list ("A","C","A") and genotypes [1;0] (one sample carries "A",
+   encoded as the first occurrence, index 0) counts() reports 0 carriers of "A". *)
+Lemma counts_duplicate_refuted_w :
+  exists (r : decode_result) (a : allele),
+    carriers r a = 1 /\ dict_get (counts_model r) (Some a) = Some 0.
+Proof. exists ([1; 0], [[65]; [67]; [65]], false), [65]. split; vm_compute; reflexivity. Qed.
+
+(* without duplicates the Counter is right: every allele of the list gets its carriers *)
+Lemma dict_get_set_same d k x : dict_get (dict_set d k x) k = Some x.
+Proof.
+  induction d as [|[k' y] r IH]; simpl.
+  - unfold okey_eqb, opt_eqb. destruct k; [rewrite allele_eqb_refl|]; reflexivity.
+  - destruct (okey_eqb k k') eqn:E; simpl; rewrite E; [reflexivity | assumption].
+Qed.
+
+Lemma dict_get_set_other d k k' x : okey_eqb k' k = false -> dict_get (dict_set d k x) k' = dict_get d k'.
+Proof.
+  intros N. induction d as [|[k0 y] r IH]; simpl.
+  - rewrite N. reflexivity.
+  - destruct (okey_eqb k k0) eqn:E; simpl.
+    + destruct (okey_eqb k' k0) eqn:E'; [|reflexivity]. exfalso.
+      unfold okey_eqb, opt_eqb in *. destruct k, k0, k'; try discriminate.
+      apply allele_eqb_eq in E, E'. subst. rewrite allele_eqb_refl in N. discriminate.
+    + destruct (okey_eqb k' k0); [reflexivity | assumption].
+Qed.
+
+Lemma counts_loop_nodup g : forall al i d a j,
+  NoDup al -> 0 <= j -> get al j = Ok a ->
+  dict_get (counts_loop g i al d) (Some a) = Some (count_eq g (i + j)).
+Proof.
+  induction al as [|x r IH]; intros i d a j ND Hj G.
+  - unfold get in G. destruct (j <? 0); [discriminate|]. destruct (Z.to_nat j); discriminate.
+  - inversion ND as [|? ? NI ND']; subst. simpl. destruct (Z.eq_dec j 0) as [-> | Nj].
+    + unfold get in G; simpl in G. inversion G; subst.
+      assert (KEEP : forall r' i' d', ~ In a r' ->
+                dict_get (counts_loop g i' r' d') (Some a) = dict_get d' (Some a)).
+      { induction r' as [|y r' IHr]; intros i' d' NI'; simpl; [reflexivity|].
+        rewrite IHr by (intro; apply NI'; right; assumption).
+        apply dict_get_set_other. unfold okey_eqb, opt_eqb.
+        destruct (allele_eqb a y) eqn:E; [|reflexivity]. apply allele_eqb_eq in E. subst.
+        exfalso. apply NI'. left. reflexivity. }
+      rewrite KEEP by assumption. rewrite dict_get_set_same. f_equal. f_equal. lia.
+    + rewrite get_cons_pos in G by lia. rewrite (IH (i + 1) _ a (j - 1) ND' ltac:(lia) G).
+      f_equal. f_equal. lia.
+Qed.
+
+Lemma counts_without_duplicates_l g al hm i a :
+  NoDup al -> get al i = Ok a ->
+  dict_get (counts_model (g, al, hm)) (Some a) = Some (count_eq g i).
+Proof.
+  intros ND G. unfold counts_model. pose proof (get_range _ _ _ G) as R.
+  rewrite (counts_loop_nodup g al 0 _ a i ND ltac:(lia) G). reflexivity.
+Qed.
